@@ -135,11 +135,29 @@ func (w *World) PostFrom(body []byte, remote string) (int, []byte) {
 }
 
 // PostExt sends body to the External-C2 handler.
-func (w *World) PostExt(body []byte) (int, []byte) {
+func (w *World) PostExt(body []byte) (int, []byte) { return w.PostExtCL(body, nil) }
+
+// PostCL / PostExtCL are Post / PostExt with the request's announced Content-Length set to *cl
+// (what a peer writing its own HTTP framing can claim), whatever the body really holds.
+func (w *World) PostCL(body []byte, cl *int64) (int, []byte) {
+	req := httptest.NewRequest(http.MethodPost, "/", bytes.NewReader(body))
+	req.RemoteAddr = "10.1.2.3:40000"
+	if cl != nil {
+		req.ContentLength = *cl
+	}
+	rr := httptest.NewRecorder()
+	w.H.GinEngine.ServeHTTP(rr, req)
+	return rr.Code, rr.Body.Bytes()
+}
+
+func (w *World) PostExtCL(body []byte, cl *int64) (int, []byte) {
 	rr := httptest.NewRecorder()
 	ctx, _ := gin.CreateTestContext(rr)
 	req := httptest.NewRequest(http.MethodPost, "/ext", bytes.NewReader(body))
 	req.RemoteAddr = "10.1.2.4:40001"
+	if cl != nil {
+		req.ContentLength = *cl
+	}
 	ctx.Request = req
 	w.Ext.Request(ctx)
 	return rr.Code, rr.Body.Bytes()
